@@ -32,7 +32,12 @@ class Native:
         self.calls = 0
 
     def start(self):
-        self.p = subprocess.Popen([self.path], stdin=subprocess.PIPE, stdout=subprocess.PIPE, text=True, bufsize=1)
+        # binary pipes wrapped by hand: subprocess' text mode reads with universal newlines, so a CR inside a reply
+        # (a panic message quoting the text) would be taken for a line end and desynchronise the protocol
+        self.p = subprocess.Popen([self.path], stdin=subprocess.PIPE, stdout=subprocess.PIPE, bufsize=0)
+        import io
+        self.p.stdin = io.TextIOWrapper(self.p.stdin, encoding='utf-8', newline='\n', line_buffering=True)
+        self.p.stdout = io.TextIOWrapper(self.p.stdout, encoding='utf-8', errors='replace', newline='\n')
 
     def call(self, line):
         if self.p is None or self.p.poll() is not None:
